@@ -20,22 +20,22 @@ def mixOf (values : List Attr) : List (Nat × Bool) := (values.filterMap nodeOf)
 def prepMs (values : List Attr) : List Nat :=
   (((values.filterMap nodeOf).head?.map (·.1)).toList ++ (mixOf values).map (·.1))
 
-def plainRegs (st : TState) (pre : Nat) (values : List Attr) : TState :=
-  values.foldl (fun st v => match v with | .plain d => st.emit (.register pre d) | _ => st) st
-
-/-- `__prepare__` -/
+/-- `__prepare__`: the plain functions of the bases as functions of their own, then the merged function -/
 def prepSt (st : TState) (values : List Attr) : TState :=
-  plainRegs (st.create (prepMs values)).1 st.nn values
+  ((plainMk st values).1.create (prepMs values ++ (plainMk st values).2)).1
+
+/-- the merged function of `__prepare__` -/
+def preOf (st : TState) (values : List Attr) : Nat := (plainMk st values).1.nn
 
 def stepA1 (st : TState) (values : List Attr) (d : Def) (rest : List Def) : TState :=
   let st2 := prepSt st values
   let st3 := (st2.create []).1
   let st4 := st3.emit (.register st2.nn d)
-  let st5 := st4.emit (.addMixins st.nn [st2.nn])
-  push (regAll st5 st.nn rest) (.node st.nn false) true
+  let st5 := st4.emit (.addMixins (preOf st values) [st2.nn])
+  push (regAll st5 (preOf st values) rest) (.node (preOf st values) false) true
 
 def stepA2 (st : TState) (values : List Attr) (own : List Def) : TState :=
-  push (regAll (prepSt st values) st.nn own) (.node st.nn false) true
+  push (regAll (prepSt st values) (preOf st values) own) (.node (preOf st values) false) true
 
 def stepB0 (st : TState) (d : Def) : TState := (st.create []).1.emit (.register st.nn d)
 
@@ -80,6 +80,9 @@ def prepE (vals : List Eff) : List (List (Def × Int)) :=
 
 def plainDs (vals : List Eff) : List Def := vals.filterMap (fun e => if e.kind == .plain then e.fn else none)
 
+/-- the plain functions of the bases, as mixed in by `__prepare__` -/
+def plainE (vals : List Eff) : List (List (Def × Int)) := (plainDs vals).map (fun d => nodeDefns [] [d])
+
 def effB (vals : List Eff) (d : Def) (rest : List Def) : Eff :=
   match vals.filter (fun e => e.kind != .none) with
   | [] => { kind := .ovld, flagged := true, defns := nodeDefns [] (d :: rest), hasF := true }
@@ -94,9 +97,9 @@ def effO (acc : List Eff) (k : ClassDecl) (own : List Def) : Eff :=
   if !k.mixin && !(mixE (valsOf acc k)).isEmpty then
     match own, k.extend with
     | d :: rest, true =>
-      { kind := .ovld, defns := nodeDefns (prepE (valsOf acc k) ++ [nodeDefns [] [d]]) (plainDs (valsOf acc k) ++ rest),
+      { kind := .ovld, defns := nodeDefns (prepE (valsOf acc k) ++ plainE (valsOf acc k) ++ [nodeDefns [] [d]]) rest,
         hasF := true }
-    | _, _ => { kind := .ovld, defns := nodeDefns (prepE (valsOf acc k)) (plainDs (valsOf acc k) ++ own), hasF := true }
+    | _, _ => { kind := .ovld, defns := nodeDefns (prepE (valsOf acc k) ++ plainE (valsOf acc k)) own, hasF := true }
   else match own, k.extend && !k.mixin with
     | d :: rest, true => effB (valsOf acc k) d rest
     | [d], _ => { kind := .plain, defns := nodeDefns [] [d], fn := some d, hasF := true }
@@ -110,11 +113,11 @@ def effStepO (acc : List Eff) (k : ClassDecl) (own : List Def) : List Eff :=
   let mix := ov.tail.filter (·.flagged)
   if usesMC && !mix.isEmpty then
     let plainDs : List Def := vals.filterMap (fun e => if e.kind == .plain then e.fn else none)
-    let ms := (ov.head?.toList ++ mix).map (·.defns)
+    let ms := (ov.head?.toList ++ mix).map (·.defns) ++ plainDs.map (fun d => nodeDefns [] [d])
     match own, k.extend with
     | d :: rest, true =>
-      acc ++ [{ kind := .ovld, defns := nodeDefns (ms ++ [nodeDefns [] [d]]) (plainDs ++ rest), hasF := true }]
-    | _, _ => acc ++ [{ kind := .ovld, defns := nodeDefns ms (plainDs ++ own), hasF := true }]
+      acc ++ [{ kind := .ovld, defns := nodeDefns (ms ++ [nodeDefns [] [d]]) rest, hasF := true }]
+    | _, _ => acc ++ [{ kind := .ovld, defns := nodeDefns ms own, hasF := true }]
   else match own, k.extend && usesMC with
     | d :: rest, true =>
       let inh := vals.filter (fun e => e.kind != .none)
@@ -130,7 +133,7 @@ def effStepO (acc : List Eff) (k : ClassDecl) (own : List Def) : List Eff :=
 
 theorem effStepO_eq (acc : List Eff) (k : ClassDecl) (own : List Def) :
     effStepO acc k own = acc ++ [effO acc k own] := by
-  unfold effStepO effO effB effE mixE prepE plainDs valsOf
+  unfold effStepO effO effB effE mixE prepE plainE plainDs valsOf
   dsimp only
   split
   · split <;> rfl
@@ -303,94 +306,128 @@ theorem not_anc_of_nil {mx : Nat → List Nat} {n m : Nat} (h : mx m = []) : ¬ 
   | direct hm => rw [h] at hm; cases hm
   | step hm _ => rw [h] at hm; cases hm
 
-theorem prepSt_snap {st : TState} {a : AG} (hs : Snap st a) (values : List Attr)
-    (hms : ∀ m ∈ prepMs values, m < a.len) :
-    Snap (prepSt st values) ((a.step (.create (prepMs values) false)).regs st.nn (values.filterMap plainOf)) ∧
-    (prepSt st values).nn = st.nn + 1 ∧ (prepSt st values).attr = st.attr ∧ (prepSt st values).hasF = st.hasF := by
-  have hN := hs.len
-  have heq : prepSt st values = regAll (st.create (prepMs values)).1 st.nn (values.filterMap plainOf) :=
-    plainFold st.nn _ (fun st v => by cases v <;> rfl) values _
-  rw [heq]
-  have hf := regAll_fields st.nn (values.filterMap plainOf) (st.create (prepMs values)).1
-  exact ⟨(hs.create _ hms).regAll st.nn _ (by show st.nn < a.len + 1; omega), hf.2.2, hf.1, hf.2.1⟩
+/-- the functions made of the bases' plain functions evaluate to the single definition they hold -/
+theorem leaves_eval {a1 a' : AG} {lo : Nat} {D' : Nat → List (Def × Int)}
+    (hunf : ∀ n, n < a'.len → D' n = overlay (overlayAll ((a'.mx n).map D')) (a'.ow n))
+    (hlen : a1.len ≤ a'.len) (hsame : ∀ k, k < a1.len → a'.mx k = a1.mx k ∧ a'.ow k = a1.ow k)
+    {pds : List Def} {ns : List Nat} (h : All2 (LeafRel a1 lo) pds ns) :
+    ns.map D' = pds.map (fun d => nodeDefns [] [d]) := by
+  induction h with
+  | nil => rfl
+  | cons h1 _ ih =>
+    obtain ⟨_, h2, h3, h4⟩ := h1
+    obtain ⟨e1, e2⟩ := hsame _ h2
+    simp only [List.map_cons]
+    rw [ih, eval_leaf hunf (Nat.lt_of_lt_of_le h2 hlen) ⟨e1.trans h3, e2.trans h4⟩]
 
 theorem spec_A2 (st : TState) (a : AG) (D : Nat → List (Def × Int)) (hs : Snap st a) (values : List Attr)
     (vals : List Eff) (own : List Def) (hms : ∀ m ∈ prepMs values, m < a.len)
     (hD : (prepMs values).map D = prepE vals) (hpl : values.filterMap plainOf = plainDs vals) :
     StepOK st a D (stepA2 st values own)
-      { kind := .ovld, defns := nodeDefns (prepE vals) (plainDs vals ++ own), hasF := true } := by
-  have hN := hs.len
-  obtain ⟨s1, f1, f2, f3⟩ := prepSt_snap hs values hms
-  have s2 := s1.regAll st.nn own (by simp; omega)
-  have hf := regAll_fields st.nn own (prepSt st values)
-  refine ⟨_, .node st.nn false, s2.push _ _, by simp, fun j hj => ⟨?_, ?_⟩, ?_, ?_, fun D' hunf hold => ⟨rfl, rfl, ?_, ?_⟩⟩
-  · simp only [regs_mx, create_mx]
-    rw [upd_ne _ _ _ _ (by omega)]
-  · simp only [regs_ow, create_ow]
-    rw [upd_ne _ _ _ _ (by omega), upd_ne _ _ _ _ (by omega)]
+      { kind := .ovld, defns := nodeDefns (prepE vals ++ plainE vals) own, hasF := true } := by
+  obtain ⟨a1, s1, hle1, hsame1, hleaf, hat1, hhf1⟩ := plainMk_spec st a values hs
+  unfold stepA2 prepSt preOf
+  generalize (plainMk st values).1 = st1 at *
+  generalize (plainMk st values).2 = ns at *
+  have hn : st1.nn = a1.len := s1.len.symm
+  rw [hn]
+  have hcl := s1.closed
+  have hmsAll : ∀ m ∈ prepMs values ++ ns, m < a1.len := by
+    intro m hm
+    rcases List.mem_append.mp hm with h | h
+    · exact Nat.lt_of_lt_of_le (hms m h) hle1
+    · obtain ⟨_, _, hr⟩ := hleaf.right m h
+      exact hr.2.1
+  have s2 := s1.create _ hmsAll
+  have s3 := s2.regAll a1.len own (by simp)
+  have hf := regAll_fields a1.len own (st1.create (prepMs values ++ ns)).1
+  refine ⟨_, .node a1.len false, s3.push _ _, by simp; omega, fun j hj => ?_, ?_, ?_,
+    fun D' hunf hold => ⟨rfl, rfl, ?_, ?_⟩⟩
+  · have h1 : j ≠ a1.len := by omega
+    obtain ⟨e1, e2⟩ := hsame1 j hj
+    simp [upd, h1, e1, e2]
   · show (regAll _ _ _).attr ++ _ = _
-    rw [hf.1, f2]
+    rw [hf.1]; simp [hat1]
   · show (regAll _ _ _).hasF ++ _ = _
-    rw [hf.2.1, f3]
-  · simp; omega
-  · refine eval_node hunf (by simp; omega) (L := prepMs values) (ds := plainDs vals ++ own) ?_ ?_ ?_
-    · simp only [regs_mx, create_mx]
-      rw [← hN, upd_same]
-    · simp only [regs_ow, create_ow, upd_same]
-      rw [hs.closed.2 st.nn (by omega), regs_append, hpl]
-    · rw [← hD]
-      apply List.map_congr_left
-      intro m hm
-      exact hold m (hms m hm)
+    rw [hf.2.1]; simp [hhf1]
+  · simp
+  · refine eval_node hunf (by simp) (L := prepMs values ++ ns) (ds := own) ?_ ?_ ?_
+    · simp [upd]
+    · simp [upd, hcl.2 a1.len (Nat.le_refl _)]
+    · rw [List.map_append, ← hD]
+      unfold plainE
+      rw [← hpl]
+      congr 1
+      · apply List.map_congr_left
+        intro m hm
+        exact hold m (hms m hm)
+      · refine leaves_eval hunf (by simp) (fun k hk => ?_) hleaf
+        have h1 : k ≠ a1.len := by omega
+        simp [upd, h1]
 
 theorem spec_A1 (st : TState) (a : AG) (D : Nat → List (Def × Int)) (hs : Snap st a) (values : List Attr)
     (vals : List Eff) (d : Def) (rest : List Def) (hms : ∀ m ∈ prepMs values, m < a.len)
     (hD : (prepMs values).map D = prepE vals) (hpl : values.filterMap plainOf = plainDs vals) :
     StepOK st a D (stepA1 st values d rest)
-      { kind := .ovld, defns := nodeDefns (prepE vals ++ [nodeDefns [] [d]]) (plainDs vals ++ rest), hasF := true } := by
-  have hN := hs.len
-  have hcl := hs.closed
-  obtain ⟨s2, f1, f2, f3⟩ := prepSt_snap hs values hms
-  unfold stepA1
+      { kind := .ovld, defns := nodeDefns (prepE vals ++ plainE vals ++ [nodeDefns [] [d]]) rest, hasF := true } := by
+  obtain ⟨a1, s1, hle1, hsame1, hleaf, hat1, hhf1⟩ := plainMk_spec st a values hs
+  unfold stepA1 prepSt preOf
   dsimp only
-  rw [f1]
+  generalize (plainMk st values).1 = st1 at *
+  generalize (plainMk st values).2 = ns at *
+  have hn : st1.nn = a1.len := s1.len.symm
+  simp only [create_nn, hn]
+  have hcl := s1.closed
+  have hmsAll : ∀ m ∈ prepMs values ++ ns, m < a1.len := by
+    intro m hm
+    rcases List.mem_append.mp hm with h | h
+    · exact Nat.lt_of_lt_of_le (hms m h) hle1
+    · obtain ⟨_, _, hr⟩ := hleaf.right m h
+      exact hr.2.1
+  have s2 := s1.create _ hmsAll
   have s3 := s2.create [] (fun m hm => nomatch hm)
-  have s4 := s3.register (st.nn + 1) d (by simp; omega)
-  have s5 := s4.addMixins st.nn [st.nn + 1] (by
+  have s4 := s3.register (a1.len + 1) d (by simp)
+  have s5 := s4.addMixins a1.len [a1.len + 1] (by
     refine ⟨by simp; omega, fun m hm => ?_⟩
     rw [List.mem_singleton] at hm; subst hm
-    refine ⟨by simp; omega, by omega, not_anc_of_nil ?_⟩
-    simp [upd, ← hN])
-  have s6 := s5.regAll st.nn rest (by simp; omega)
-  have hf := regAll_fields st.nn rest
-    ((((prepSt st values).create []).1.emit (.register (st.nn + 1) d)).emit (.addMixins st.nn [st.nn + 1]))
-  refine ⟨_, .node st.nn false, s6.push _ _, by simp; omega, fun j hj => ⟨?_, ?_⟩, ?_, ?_,
+    refine ⟨by simp, by omega, not_anc_of_nil ?_⟩
+    simp [upd])
+  have s6 := s5.regAll a1.len rest (by simp; omega)
+  have hf := regAll_fields a1.len rest
+    (((((st1.create (prepMs values ++ ns)).1).create []).1.emit (.register (a1.len + 1) d)).emit
+      (.addMixins a1.len [a1.len + 1]))
+  refine ⟨_, .node a1.len false, s6.push _ _, by simp; omega, fun j hj => ?_, ?_, ?_,
     fun D' hunf hold => ⟨rfl, rfl, ?_, ?_⟩⟩
-  · have h1 : j ≠ a.len := by omega
-    have h2 : j ≠ a.len + 1 := by omega
-    simp [upd, ← hN, h1, h2]
-  · have h1 : j ≠ a.len := by omega
-    have h2 : j ≠ a.len + 1 := by omega
-    simp [upd, ← hN, h1, h2]
+  · have h1 : j ≠ a1.len := by omega
+    have h2 : j ≠ a1.len + 1 := by omega
+    obtain ⟨e1, e2⟩ := hsame1 j hj
+    simp [upd, h1, h2, e1, e2]
   · show (regAll _ _ _).attr ++ _ = _
-    rw [hf.1]; simp [f2]
+    rw [hf.1]; simp [hat1]
   · show (regAll _ _ _).hasF ++ _ = _
-    rw [hf.2.1]; simp [f3]
+    rw [hf.2.1]; simp [hhf1]
   · simp; omega
-  · have hleaf : D' (st.nn + 1) = nodeDefns [] [d] := by
-      refine eval_node hunf (by simp; omega) (L := []) ?_ ?_ rfl
-      · simp [upd, ← hN]
-      · simp [upd, ← hN, hcl.2 (a.len + 1) (by omega)]
+  · have hleaf1 : D' (a1.len + 1) = nodeDefns [] [d] := by
+      refine eval_node hunf (by simp) (L := []) ?_ ?_ rfl
+      · simp [upd]
+      · simp [upd, hcl.2 (a1.len + 1) (by omega)]
         rfl
-    refine eval_node hunf (by simp; omega) (L := prepMs values ++ [st.nn + 1]) (ds := plainDs vals ++ rest) ?_ ?_ ?_
-    · simp [upd, ← hN]
-    · simp [upd, ← hN, hcl.2 a.len (Nat.le_refl _), regs_append, hpl]
-    · rw [List.map_append, ← hD]
+    refine eval_node hunf (by simp; omega) (L := prepMs values ++ ns ++ [a1.len + 1]) (ds := rest) ?_ ?_ ?_
+    · simp [upd]
+    · simp [upd, hcl.2 a1.len (Nat.le_refl _)]
+    · rw [List.map_append, List.map_append, ← hD]
+      unfold plainE
+      rw [← hpl]
       congr 1
-      · apply List.map_congr_left
-        intro m hm
-        exact hold m (hms m hm)
-      · simp [hleaf]
+      · congr 1
+        · apply List.map_congr_left
+          intro m hm
+          exact hold m (hms m hm)
+        · refine leaves_eval hunf (by simp; omega) (fun k hk => ?_) hleaf
+          have h1 : k ≠ a1.len := by omega
+          have h2 : k ≠ a1.len + 1 := by omega
+          simp [upd, h1, h2]
+      · simp [hleaf1]
 
 theorem mix_eval1 {a' : AG} {N lo : Nat} {D D' : Nat → List (Def × Int)}
     (hunf : ∀ n, n < a'.len → D' n = overlay (overlayAll ((a'.mx n).map D')) (a'.ow n))
